@@ -425,6 +425,13 @@ def report(ctx, case, res):
                 case, res = small, r2
         except Exception:   # pylint: disable=broad-except
             pass
+    elif case["kind"] in ("object-forms", "dataframe", "roles"):
+        try:
+            small, r2 = F.shrink_obj_case(case)
+            if r2 is not None:
+                case, res = small, r2
+        except Exception:   # pylint: disable=broad-except
+            pass
     ctx.impl_fail(f"{res['clause']}/{res['trigger']}", res["what"], case)
 
 
